@@ -7,4 +7,5 @@ cd /repo && git apply "$patch" || { echo "patch does not apply"; exit 2; }
 cd /verif
 for c in "$@"; do echo "--- check $c with seeded $id"; ./check $c 2>&1 | tail -4 | cut -c1-400; done
 git -C /repo checkout -- .
+(cd /verif/harness && cargo build --offline 2>&1 | tail -1)
 git -C /repo status --short | head -3
